@@ -9,7 +9,8 @@
     The model is tied to the code by trace validation (props/c10.py, Workers/Checker.v). *)
 From Coq Require Import ZArith List Bool Arith.
 From Texel Require Import Workers.Workers Workers.WorkersLemmas Workers.WorkersInv
-  Workers.WorkersTheorems Workers.WorkersLive Workers.WorkersExamples.
+  Workers.WorkersTheorems Workers.WorkersLive Workers.WorkersLiveProofs Workers.WorkersExamples
+  Workers.Checker Workers.WorkersRestart.
 Import ListNotations.
 
 (** stopAckWaitChildren of every communicator is exactly the number of its children whose
@@ -65,6 +66,15 @@ Theorem C10_no_lost_wakeup : forall N parent, tree_ok N parent -> forall s, reac
 Proof. exact no_lost_wakeup. Qed.
 Print Assumptions C10_no_lost_wakeup.
 
+(** progress, proved part: while the engine thread collects stop acknowledgements the system is
+    never stuck — some thread can take a transition that changes the state (no deadlock, no
+    lost acknowledgement), in every reachable state *)
+Theorem C10_stop_terminates_partial : forall N parent, tree_ok N parent ->
+  forall s, reach N parent s -> mphase (pc (th s 0)) = Some PhStop ->
+  exists t a s', t <= N /\ step N parent s t a = Some s' /\ s' <> s.
+Proof. exact stop_no_deadlock. Qed.
+Print Assumptions C10_stop_terminates_partial.
+
 (** progress, full statement (not proved: the decreasing measure over outstanding acks, queued
     commands and running helpers is not constructed): on every weakly fair infinite execution
     a stop round ends with the engine thread idle again *)
@@ -73,6 +83,21 @@ Definition C10_stop_terminates_statement : Prop :=
   forall e : nat -> state, reach N parent (e 0) -> execution N parent e -> weakly_fair N parent e ->
   forall i, mphase (pc (th (e i) 0)) = Some PhStop ->
   exists k, i <= k /\ master_idle (e k).
+
+(** "setoption Threads between searches": when the trace checker's executable quiescence test
+    passes, rebuilding the worker tree ([reconf]: surviving threads keep their state, new ones
+    start fresh) leads to a state from which every reachable state satisfies the invariants of
+    the NEW tree — so the theorems above (stated for [Inv] states in WorkersTheorems.*_inv) hold
+    across thread-count changes *)
+Theorem C10_reconfiguration_sound : forall N parent s keep N' parent',
+  tree_ok N parent -> tree_ok N' parent' -> reach N parent s -> quiescentb N s = true ->
+  (forall t, keep t = true -> helper N t) ->
+  forall s', reachF N' parent' (reconf s keep) s' ->
+  Inv N' parent' s' /\
+  (master_idle s' -> forall c, helper N' c -> helper_idle s' c) /\
+  (nbest s' <= sid s' <= S (nbest s')).
+Proof. exact reconfiguration_sound. Qed.
+Print Assumptions C10_reconfiguration_sound.
 
 (** non-vacuity: concrete schedules reaching the states the theorems speak about *)
 Theorem C10_examples :
